@@ -39,3 +39,33 @@ package state
 //@   ensures len(result) == len(k)
 //@   ensures forall i int :: 0 <= i && i < len(result) ==> has(k, result[i])
 //@   ensures forall i int, j int :: 0 <= i && i < j && j < len(result) ==> result[i] != result[j]
+
+// ---- state.Mutable as a key-value map: the interface contract that callers handed a Mutable rely
+// on (genesis, balance handlers, actions).  tstate.TStateView is proved to behave this way in C04
+// (Insert/Remove/GetValue against visExists/visVal, failure leaves the view unchanged).  The ghost
+// map gmap("vis", mu) is the visible content; stok(mu) abstracts "the store is healthy and the
+// access is permitted and well-formed", under which reads only miss for absent keys and writes succeed.
+//@ spec func stok(mu Mutable) bool
+//@ func Mutable.GetValue
+//@   trusted
+//@   noframe
+//@   ensures err == nil ==> has(gmap("vis", self), str(key)) && str(result0) == gmap("vis", self)[str(key)]
+//@   ensures is(err, database.ErrNotFound) ==> !has(gmap("vis", self), str(key))
+//@   ensures stok(self) ==> (err == nil) == has(gmap("vis", self), str(key))
+//@   ensures stok(self) && err != nil ==> err == database.ErrNotFound
+//@ func Mutable.Insert
+//@   trusted
+//@   noframe
+//@   modifies gmap("vis", self)[]
+//@   ensures err == nil ==> has(gmap("vis", self), str(key)) && gmap("vis", self)[str(key)] == str(value)
+//@   ensures err != nil ==> has(gmap("vis", self), str(key)) == old(has(gmap("vis", self), str(key))) && gmap("vis", self)[str(key)] == old(gmap("vis", self)[str(key)])
+//@   ensures forall q string :: q != str(key) ==> has(gmap("vis", self), q) == old(has(gmap("vis", self), q)) && gmap("vis", self)[q] == old(gmap("vis", self)[q])
+//@   ensures stok(self) ==> err == nil
+//@ func Mutable.Remove
+//@   trusted
+//@   noframe
+//@   modifies gmap("vis", self)[]
+//@   ensures err == nil ==> !has(gmap("vis", self), str(key))
+//@   ensures err != nil ==> has(gmap("vis", self), str(key)) == old(has(gmap("vis", self), str(key))) && gmap("vis", self)[str(key)] == old(gmap("vis", self)[str(key)])
+//@   ensures forall q string :: q != str(key) ==> has(gmap("vis", self), q) == old(has(gmap("vis", self), q)) && gmap("vis", self)[q] == old(gmap("vis", self)[q])
+//@   ensures stok(self) ==> err == nil
